@@ -2,6 +2,7 @@ import Model.C15
 import Proofs.C14.Desc2
 import Proofs.C15.Groups
 import Proofs.C15.Multi
+import Proofs.C15.Sets
 /-! C15 proofs: partition state machine (edges, lock, promotion, deletion), replication sets.
 Routing (`ActivePartitionForKey`) is proved in `Proofs/C14/Route.lean` + `Proofs/C14/Desc.lean`. -/
 namespace PfC15
